@@ -34,7 +34,11 @@ type Payload struct {
 	Accepted bool   `json:"accepted"`
 }
 
-var payloads = []string{"", " 30m", " 8k", "\"", "\\", "'", "{", "}", ";", " x", "#", "$", "\\\"", "${", " \"x\"", "\n", ")", "\"x", "{}", "'x", ", ", ",", ", ,X-Accel-Redirect", " ,"}
+var payloads = []string{"", " 30m", " 8k", "\"", "\\", "'", "{", "}", ";", " x", "#", "$", "\\\"", "${", " \"x\"", "\n", ")", "\"x", "{}", "'x", ", ", ",", ", ,X-Accel-Redirect", " ,",
+	"\\ ", "\\\t", " ", "\t", prepend + " ", prepend + "\\ ", prepend + "\\\t"}
+
+// a payload that starts with this marker is put in FRONT of the value
+const prepend = "\x00<"
 
 type leaf struct {
 	path string
@@ -59,7 +63,11 @@ func collectLeaves(v reflect.Value, path string, out *[]leaf) {
 		}
 	case reflect.Slice:
 		for i := 0; i < v.Len(); i++ {
-			collectLeaves(v.Index(i), path+"[]", out)
+			el := "[]"
+			if sp, ok := v.Index(i).Interface().(conf_v1.Split); ok && sp.Weight == 0 {
+				el = "[weight0]" // the action of a split that gets no traffic is rendered all the same
+			}
+			collectLeaves(v.Index(i), path+el, out)
 		}
 	case reflect.Map:
 		if v.Type().Key().Kind() == reflect.String && v.Type().Elem().Kind() == reflect.String {
@@ -262,6 +270,9 @@ func runPayload(seed uint64, id int, k int) (c Case) {
 	o := targets[e.obj]
 	l := leavesOf(o)[e.leaf]
 	nv := l.get() + payloads[pi]
+	if strings.HasPrefix(payloads[pi], prepend) {
+		nv = payloads[pi][len(prepend):] + l.get()
+	}
 	l.set(nv)
 	c.Payload = &Payload{Field: e.path, Add: vh.Bytes(payloads[pi]), Value: vh.Bytes(nv), Target: objKey(o)}
 	if !validateObj(o, w.flags) {
